@@ -442,7 +442,7 @@ class HeavyHitters:
             collections.Counter().most_common().
         """
         if threshold is None:
-            threshold = np.uint32(self.phi * self.n_added())
+            threshold = int(self.phi * self.n_added())
         else:
             threshold = np.uint32(threshold)
 
@@ -743,8 +743,8 @@ class HeavyHitters:
         None
         """
         if threshold is None:
-            threshold = np.uint32(self.phi * self.n_added())
-        else:
+            threshold = int(self.phi * self.n_added())
+        elif not isinstance(threshold, int):
             threshold = np.uint32(threshold)
 
         self.n_added_sort = self.n_added()
